@@ -1610,6 +1610,13 @@ func (g *vGen) cfgLine() string {
 		g.ums = ums
 		g.scenarioRefreshRace()
 	}
+	if (g.profile == "rr" || g.profile == "refresh") && g.script == nil && r.Intn(4) == 0 && cfg == "given" {
+		// a round-robin BIND call waits for its channel; a response arrives on that channel meanwhile
+		min, max, wm, rr, fb = 2, 2, 50, 1, 0
+		uc, ums = 1+r.Intn(2), 1+r.Intn(2)
+		g.ums = ums
+		g.scenarioRRWaitDetector(uc)
+	}
 	if (g.profile == "growth" || g.profile == "load" || g.profile == "refresh") && g.script == nil && r.Intn(5) == 0 && cfg == "given" {
 		// calls in flight across a refresh complete after the swap; then the pool is loaded up to the watermark
 		min, max, wm, rr, fb = 1, 2, 3, 0, 0
@@ -1685,6 +1692,65 @@ func (g *vGen) scenarioLoadAfterRefresh() {
 			add(done(&ids[i], "other"))
 		}
 	}
+}
+
+// scenarioRRWaitDetector: BIND calls are spread round-robin over two channels; the first channel leaves READY and the
+// next BIND call assigned to it waits; while it waits the clock advances and the earlier call on that channel gets
+// its reply (a response); the channel becomes READY again and the waiting call is handed it - it starts now, after
+// that response; it then runs past its deadline (with uc-1 more calls like it): the detector must count them all.
+func (g *vGen) scenarioRRWaitDetector(uc int) {
+	h := g.h
+	add := func(f func() string) { g.script = append(g.script, f) }
+	cur := func() int { return len(h.cc.pubs) - 1 }
+	call := func() int { g.nextCall++; return g.nextCall }
+	bind := func(id *int, dl string) func() string {
+		return func() string {
+			if cur() < 0 {
+				return ""
+			}
+			*id = call()
+			d := dl
+			if d == "now" {
+				d = strconv.FormatInt(atomic.LoadInt64(&verifClock), 10)
+			}
+			return fmt.Sprintf("pool pick call=%d picker=%d m=bind ctx=gcp dl=%s req=/", *id, cur(), d)
+		}
+	}
+	done := func(id *int, err string) func() string {
+		return func() string {
+			if _, ok := h.calls[*id]; !ok {
+				return ""
+			}
+			return fmt.Sprintf("pool done call=%d err=%s reply=/", *id, err)
+		}
+	}
+	var a, b int
+	waiters := make([]int, 2*uc-1) // every other one is assigned the first channel
+	add(func() string { return "pool ccs addrs=1" })
+	add(func() string { return "pool scs sc=0 st=READY" })
+	add(func() string { return "pool scs sc=1 st=READY" })
+	add(bind(&a, "none")) // first channel
+	add(bind(&b, "none")) // second channel
+	add(func() string { return "pool scs sc=0 st=IDLE" })
+	add(func() string { return "pool adv ns=1000" })
+	for i := range waiters {
+		add(bind(&waiters[i], "now"))
+	}
+	add(func() string { return "pool adv ns=1000" })
+	add(done(&a, "nil"))
+	add(func() string { return "pool adv ns=1000" })
+	add(func() string { return "pool scs sc=0 st=READY" })
+	add(func() string { return fmt.Sprintf("pool adv ns=%d", int64(g.ums)*1000000+1) })
+	for i := range waiters {
+		add(done(&waiters[i], "declient"))
+	}
+	add(func() string {
+		for sc := range h.gb.refreshingScRefs {
+			return fmt.Sprintf("pool scs sc=%d st=READY", sc.(*vSubConn).id)
+		}
+		return ""
+	})
+	add(done(&b, "other"))
 }
 
 // scenarioRefreshRace: several calls on one channel run past their deadlines; two of them complete at the same
@@ -2682,6 +2748,14 @@ func (g *vGen) next(i int) string {
 				// straddle the point where a 32-bit cursor would wrap around
 				cur := vCursor(h.gb) + 1 // BIND picks so far
 				d := (1<<32 - uint64(1+r.Intn(3)) - cur%(1<<32)) % (1 << 32)
+				switch r.Intn(4) {
+				case 0: // … or of 2^31 / 2^63: where a cursor converted to a signed integer turns negative
+					d = (1<<31 - uint64(1+r.Intn(3)) - cur%(1<<31)) % (1 << 31)
+				case 1:
+					if cur < 1<<40 {
+						d = 1<<63 - uint64(1+r.Intn(3)) - cur
+					}
+				}
 				if d > 0 && cur < 1<<40 {
 					line = fmt.Sprintf("pool rrjump d=%d", d)
 				}
